@@ -54,14 +54,14 @@ def scan_for_assume(modules):
 _G = {}
 
 
-def gen_worker(cname, unroll=0, shard=(0, 1)):
+def gen_worker(cname, unroll=0, shard=(0, 1), exact=False):
     """runs in a forked child: verify one contract, write its VC files, return metadata"""
     core, execu, solve = _G['core'], _G['execu'], _G['solve']
     prop, outdir = _G['prop'], _G['outdir']
     c = core.CONTRACTS[cname]
     t0 = time.time()
     try:
-        ctx = execu.verify(c, unroll, shard)
+        ctx = execu.verify(c, unroll, shard, exact)
     except core.ToolLimit as e:
         return {'contract': cname, 'tool_limit': str(e)}
     except Exception:
@@ -77,9 +77,11 @@ def gen_worker(cname, unroll=0, shard=(0, 1)):
     for ob in ctx.obligations:
         if prop not in ob.props: continue
         if unroll and ob.kind not in ('ensures', 'escape', 'raises', 'exit-inv', 'crash-inv', 'frame', 'call-requires', 'sched-inv', 'call-param'): continue
-        full = '%s/%s%s' % (prop, 'unrolled%d:' % unroll if unroll else '', ob.name)
+        full = '%s/%s%s' % (prop, ('exact%d:' if exact else 'unrolled%d:') % unroll if unroll else '', ob.name)
         if full in names: return {'contract': cname, 'tool_limit': 'obligation name collision: ' + full}
         names.add(full)
+        same = [p_ for p_ in ob.pc if core.z3.eq(p_, ob.goal)]
+        if same: ob.pc = same          # the goal is literally one of the hypotheses: asked with that hypothesis alone (dropping hypotheses is sound; the solvers need not digest the rest)
         fn = solve.write_vc(outdir, full, ob.pc, ob.goal, ob.trace, observe)
         if ob.group is not None and not unroll: by_group.setdefault(ob.group, []).append((full, ob.goal))
         obs.append({'name': full, 'file': fn, 'kind': ob.kind, 'trace': ob.trace, 'line': ob.line, 'func': cname,
@@ -312,7 +314,7 @@ def main(argv=None):
     if hinted_funcs and not os.environ.get('PYVC_NO_CONFIRM'):
         K = 2 if args.tier == 'quick' else 3
         with ctx.Pool(min(args.jobs, len(hinted_funcs))) as pool:
-            ugens = pool.starmap(gen_worker, [(f, K) for f in hinted_funcs], chunksize=1)
+            ugens = pool.starmap(gen_worker, [(f, K, (0, 1), True) for f in hinted_funcs], chunksize=1)
         for f, g in zip(hinted_funcs, ugens):
             mine = [(o, r) for o, r in violations if o['func'] == f and o.get('hinted')]
             if 'tool_limit' in g or not g['obligations']:
@@ -320,7 +322,7 @@ def main(argv=None):
                 continue
             with ThreadPoolExecutor(args.jobs) as tp:
                 ures = list(tp.map(lambda o: (o, solve.decide(o['file'], min(budget, 30), refute=False)), g['obligations']))
-            sat = [(o, r) for o, r in ures if r['verdict'] == 'sat' and not any(match_known(k, dict(o, name=o['name'].replace('unrolled%d:' % K, ''))) for k in known)]
+            sat = [(o, r) for o, r in ures if r['verdict'] == 'sat' and not any(match_known(k, dict(o, name=o['name'].replace('exact%d:' % K, ''))) for k in known)]
             unk = [(o, r) for o, r in ures if r['verdict'] not in ('sat', 'unsat')]
             if sat:
                 for o, r in sat:
@@ -331,8 +333,8 @@ def main(argv=None):
             else:
                 for o, r in mine:
                     violations.remove((o, r))
-                    unconfirmed.append((o, dict(r, verdict='unknown', output='refuted only from an arbitrary state satisfying the stated loop invariant; all %d clauses hold on every exact execution with at most %d iterations per loop '
-                                                '(the invariant no longer fits this code, or a defect needs more iterations)' % (len(ures), K))))
+                    unconfirmed.append((o, dict(r, verdict='unknown', output='refuted only under an abstraction (a stated loop invariant, or the contract of a callee verified in the same file); all %d clauses hold on every exact execution -- '
+                                                'callee bodies in place, at most %d iterations per loop (the proof hint no longer fits this code, or a defect needs more iterations)' % (len(ures), K))))
     undecided += unconfirmed
     for fid_, names in hit_ids.items():
         k = next(f for f in known if f['id'] == fid_)
